@@ -104,8 +104,14 @@ def check_ids(label, plabel, t, planted, canon):
 
 
 def site_class(label, plabel):
-    """construct of the labelled term (paths dropped) — where the id was lost"""
-    return canon_run.label_class(label)
+    """outermost construct of the labelled term (paths and deviation names dropped) — where the id was lost"""
+    head = label.split("|")[0].split("[")[0]
+    m = re.match(r"(run|alt|lone):([A-Za-z_+\-]+)", head)
+    if m:
+        head = m.group(1) + ":" + re.sub(r"x$", "", m.group(2))          # the token-run families: by token kind
+    if head.startswith("pair:"):
+        head = "pair"                                                      # sibling pairs: one class
+    return head + ("+dev" if "|" in label else "")
 
 
 NAV1 = ["ZoomIn", "ZoomOut", "ZoomInAll", "ZoomOutAll", "MoveNext", "MovePrevious", "MoveStart", "MoveEnd", "MoveLastLocation",
@@ -177,6 +183,8 @@ def work(item):
                 continue
             nontriv.append(hash((label, plabel)))
             for k, w in check_ids(label, plabel, pt, planted, val(r)):
+                if k.startswith("author-id-lost"):
+                    k = f"{k}|{site_class(label, plabel)}"          # by construct (and deviation): losing ids on OTHER expressions is a different finding
                 viol.append((f"C09|{k}", f"{label} [{plabel}]: {w}", {"kind": kind, "label": label, "plabel": plabel, "doc": terms.doc(pt), "planted": planted}))
     elif kind == "reset":
         # the editor flow inside ONE session: take the MathML the library returned, add elements that have no id yet, set it again
@@ -284,7 +292,8 @@ def confirm(replay, verbose=False):
             _, res = mc.run_cases(setup, [[["mathml", replay["doc"]]]])
             v = []
             if is_ok(res[0][0]):
-                v = [(f"C09|{k}", w, None) for k, w in check_ids(replay["label"], replay["plabel"], t, [tuple(p) for p in replay["planted"]], val(res[0][0]))]
+                v = [(f"C09|{k}|{site_class(replay['label'], replay['plabel'])}" if k.startswith("author-id-lost") else f"C09|{k}", w, None)
+                     for k, w in check_ids(replay["label"], replay["plabel"], t, [tuple(p) for p in replay["planted"]], val(res[0][0]))]
         else:
             v, _, _ = work(("hist", replay["engine"], [(replay["label"], t)], replay["seqs"]))
     finally:
